@@ -1213,8 +1213,13 @@ class Engine:
         else:
             res, model = self._check(z3.Not(z))
         if res != 'unsat' and self.lazy:
-            # retry with the facts that were kept out of the path condition
-            res, model = self._check(z3.Not(z), *self.lazy)
+            # retry with the facts that were kept out of the path condition: first only those
+            # that mention a symbol of the goal (and, transitively, of each other), then all
+            rel = _relevant_facts(z, self.lazy)
+            if rel and len(rel) < len(self.lazy):
+                res, model = self._check(z3.Not(z), *rel)
+            if res != 'unsat':
+                res, model = self._check(z3.Not(z), *self.lazy)
         if res == 'unsat':
             self.stats.discharged += 1
             return True
@@ -1375,6 +1380,16 @@ class Engine:
                 return wrap(z3.If(ze == 0, z3.RealVal(1), z3.RealVal(0)))
         self.add_axiom(r > 0)
         return wrap(r)
+
+
+def _relevant_facts(goal, facts):
+    """Facts sharing a fresh (engine-made, name contains '!') symbol with the goal."""
+    want = {n for n in _free_consts(goal) if '!' in n}
+    out = []
+    for f in facts:
+        if want & _free_consts(f):
+            out.append(f)
+    return out
 
 
 _FP_CACHE = {}
